@@ -21,6 +21,7 @@ import os
 import random
 import subprocess
 import tempfile
+import threading
 
 import vlib
 import corpus
@@ -114,9 +115,11 @@ def illformed(tier, seed, start_gid):
         gid += 1
 
     named = [("N", "opt< %s >" % A), ("M", "seq< %s, opt< %s > >" % (A, B))]
-    for ln, lt in LOOPS:
+    for li, (ln, lt) in enumerate(LOOPS):
         ns = lt.count("%s")
         for i, (bn, bt) in enumerate(NULLABLE):
+            if tier == "quick" and (i + li) % 3 != 0 and not (ln in ("star", "plus", "until2") and not bn.startswith("CONS")):
+                continue
             if ns == 1:
                 bodies = [(bt,)]
             else:
@@ -127,12 +130,15 @@ def illformed(tier, seed, start_gid):
                 body = lt % bs
                 rules = [(n, e) for n, e in named if (" " + n + " ") in (" " + body.replace("<", " ").replace(">", " ").replace(",", " ") + " ")]
                 add(rules, "seq< %s, opt< %s > >" % (body, C) if (i % 3 == 0) else body, ["loop:" + ln, "body:" + bn])
-    for wn, wt in WRAPS:
+    for wi, (wn, wt) in enumerate(WRAPS):
         for sn, _names, mk in SHAPES:
-            if tier == "quick" and sn == "exit_first" and wn.startswith("after_"):
+            if tier == "quick" and ((sn == "exit_first") or (sn == "indirect" and wi % 2 == 1)):
                 continue
+            if wn == "direct" and sn != "exit_last" and sn != "exit_first":
+                continue                     # struct X : X is not C++
             rules = mk(wt)
-            add(rules, "seq< X, opt< eof > >" if sn != "bare" else "X", ["wrap:" + wn, "shape:" + sn])
+            extra = ["cyclic_inline"] if (sn == "bare" and wn in ("if_apply", "until1")) else []
+            add(rules, "seq< X, opt< eof > >" if sn != "bare" else "X", ["wrap:" + wn, "shape:" + sn] + extra)
     return out
 
 
@@ -149,51 +155,82 @@ def write_tu(path, grams):
         fh.write("\n".join(out) + "\n")
 
 
-def prepare_common():
-    harness_dir = os.path.join(vlib.VERIF, "harness")
-    inc_hash = vlib.tree_hash(os.path.join(vlib.REPO, "include"))
-    har_hash = vlib.file_hash(os.path.join(harness_dir, "vharness.hpp"), os.path.join(harness_dir, "c11_harness.hpp"), os.path.join(harness_dir, "c11_main.cpp"))
-    d = os.path.join(vlib.BUILD, "corpus", "c11main-" + vlib.sha(inc_hash, har_hash, vlib.CXX))
-    main_o = os.path.join(d, "c11_main.o")
+def build_main(common):
+    main_o = common["main_o"]
     if not os.path.exists(main_o):
-        os.makedirs(d, exist_ok=True)
-        tmp = main_o + ".%d.tmp" % os.getpid()
-        rc, out = vlib.sh([vlib.CXX, "-std=c++17", "-O0", "-DTAO_PEGTL_VERIF=1", "-I" + os.path.join(vlib.REPO, "include"), "-I" + harness_dir,
-                           "-c", os.path.join(harness_dir, "c11_main.cpp"), "-o", tmp], timeout=600)
+        os.makedirs(os.path.dirname(main_o), exist_ok=True)
+        tmp = main_o + ".%d.%d.tmp" % (os.getpid(), threading.get_ident())
+        rc, out = vlib.sh([vlib.CXX, "-std=c++17", "-O0", "-DTAO_PEGTL_VERIF=1", "-I" + os.path.join(vlib.REPO, "include"), "-I" + common["harness_dir"],
+                           "-c", os.path.join(common["harness_dir"], "c11_main.cpp"), "-o", tmp], timeout=900)
         if rc != 0:
             raise vlib.BuildError("c11_main.cpp does not compile against the current tree:\n" + out[-3000:])
         os.rename(tmp, main_o)
-    return {"harness_dir": harness_dir, "inc_hash": inc_hash, "har_hash": har_hash, "main_o": main_o}
+
+
+def prepare_common():
+    """all C11 binaries of one (include tree, harness) pair live in ONE cache directory (the shared cache is pruned by
+    directory count); it is touched on every use"""
+    harness_dir = os.path.join(vlib.VERIF, "harness")
+    inc_hash = vlib.tree_hash(os.path.join(vlib.REPO, "include"))
+    har_hash = vlib.file_hash(os.path.join(harness_dir, "vharness.hpp"), os.path.join(harness_dir, "c11_harness.hpp"), os.path.join(harness_dir, "c11_main.cpp"))
+    d = os.path.join(vlib.BUILD, "corpus", "c11-" + vlib.sha(inc_hash, har_hash, vlib.CXX))
+    os.makedirs(d, exist_ok=True)
+    common = {"harness_dir": harness_dir, "inc_hash": inc_hash, "har_hash": har_hash, "dir": d, "main_o": os.path.join(d, "c11_main.o")}
+    touch(common)
+    build_main(common)
+    # bound the size of the directory: keep the most recently used binaries
+    exes = sorted((os.path.join(d, f) for f in os.listdir(d) if f.endswith(".exe")), key=lambda p_: os.path.getmtime(p_))
+    for p_ in exes[:-700]:
+        try:
+            os.remove(p_)
+        except OSError:
+            pass
+    return common
+
+
+def touch(common):
+    try:
+        os.utime(common["dir"])
+    except OSError:
+        pass
 
 
 def compile_tu(common, grams):
     """-> (exe or None, error text)"""
-    key = vlib.sha(common["inc_hash"], common["har_hash"], vlib.CXX, *[g.cpp() for g in grams])
-    d = os.path.join(vlib.BUILD, "corpus", "c11-" + key)
-    os.makedirs(d, exist_ok=True)
-    try:
-        os.utime(d)
-    except OSError:
-        pass
-    exe = os.path.join(d, "tu")
+    key = vlib.sha(*[g.cpp() for g in grams])
+    d = common["dir"]
+    exe = os.path.join(d, "tu-%s.exe" % key)
     if os.path.exists(exe):
+        try:
+            os.utime(exe)
+        except OSError:
+            pass
         return exe, ""
-    failmark = os.path.join(d, "compile-failed.txt")
-    if os.path.exists(failmark):
-        return None, open(failmark).read()
-    tu = os.path.join(d, "tu.cpp")
-    write_tu(tu, grams)
-    tmp = exe + ".%d.tmp" % os.getpid()
-    cmd = [vlib.CXX, "-std=c++17", "-O0", "-DTAO_PEGTL_VERIF=1", "-I" + os.path.join(vlib.REPO, "include"), "-I" + common["harness_dir"],
-           tu, common["main_o"], "-o", tmp]
-    p = subprocess.run(cmd, stdout=subprocess.PIPE, stderr=subprocess.STDOUT, text=True, errors="replace", timeout=1800)
-    if p.returncode != 0:
-        errs = " ;; ".join([l for l in p.stdout.split("\n") if "error" in l][:4])[:2000]
-        with open(failmark, "w") as fh:
-            fh.write(errs)
-        return None, errs
-    os.rename(tmp, exe)
-    return exe, ""
+    err = ""
+    for attempt in range(2):
+        os.makedirs(d, exist_ok=True)
+        touch(common)
+        build_main(common)
+        tu = os.path.join(d, "tu-%s.%d.%d.cpp" % (key, os.getpid(), threading.get_ident()))
+        write_tu(tu, grams)
+        tmp = exe + ".%d.%d.tmp" % (os.getpid(), threading.get_ident())
+        cmd = [vlib.CXX, "-std=c++17", "-O0", "-DTAO_PEGTL_VERIF=1", "-I" + os.path.join(vlib.REPO, "include"), "-I" + common["harness_dir"],
+               tu, common["main_o"], "-o", tmp]
+        try:
+            p = subprocess.run(cmd, stdout=subprocess.PIPE, stderr=subprocess.STDOUT, text=True, errors="replace", timeout=1800)
+        finally:
+            try:
+                os.remove(tu)
+            except OSError:
+                pass
+        if p.returncode == 0:
+            os.rename(tmp, exe)
+            return exe, ""
+        err = " ;; ".join([l for l in p.stdout.split("\n") if "error" in l][:4])[:2000]
+        environmental = ("no such file" in err.lower()) or ("linker command failed" in err) or ("No space" in err) or not err
+        if not environmental:
+            break                      # a genuine compile error of the grammar
+    return None, err
 
 
 def hexs(s):
@@ -257,7 +294,7 @@ def process_chunk(common, model_exe, grams, maxlen):
         elif l.startswith("ATOT "):
             t = l.split()
             by_gid[int(t[1])].atot = int(t[2])
-    wd = tempfile.mkdtemp(prefix="c11-", dir=os.path.join(vlib.BUILD, "corpus"))
+    wd = tempfile.mkdtemp(prefix="c11run-")
     try:
         tables = os.path.join(wd, "tables.txt")
         inputs = os.path.join(wd, "inputs.txt")
@@ -292,6 +329,7 @@ def process_chunk(common, model_exe, grams, maxlen):
                 for n in order:
                     en, nm, subs, h = nodes[n]
                     ft.write("NODE %d %s %s %d%s | %s\n" % (seen[n], en, nm, len(subs), "".join(" %d" % seen[s] for s in subs), h))
+                    ft.write("ORIG %d %d\n" % (seen[n], n))
                 r.table_text = ["%d %s [%s] %s" % (seen[n], nodes[n][3], ",".join(str(seen[s]) for s in nodes[n][2]), names.get(n, "")) for n in order]
                 r.inputs = corpus.inputs_for(r.g, maxlen)
                 fi.write("%d %s\n" % (r.g.gid, " ".join(hexs(s) for s in r.inputs)))
@@ -352,15 +390,20 @@ def process_chunk(common, model_exe, grams, maxlen):
 
 
 # --------------------------------------------------------------------------- comparing the analyses
-def match_entries(r):
-    """walk the real entries (names) and the model entries (ids) from the root; returns (list of differences, model total over real names)"""
+def match_entries(r, stats):
+    """walk the real entries (names) and the model entries (ids) from the root; returns the list of differences.
+    A real name that corresponds to several model ids (the same synthetic type spelled by two rules, or a synthetic
+    type that is also a rule of the grammar) shares ONE entry in C++ but not in the model: the number of times a
+    problem is met then legitimately differs, and only kind / arity / zero-ness (and consumes where problem free)
+    are compared for that grammar."""
     diffs = []
     rootname = "g%d::G" % r.g.gid
     if rootname not in r.aent:
-        return ["root entry %s missing in the real analysis" % rootname], None
+        return ["root entry %s missing in the real analysis" % rootname]
     root_id = (r.renum[r.root], 0)
     amap = {}                       # name -> set of model ids
     todo = [(rootname, root_id)]
+    pairs = []
     while todo:
         nm, aid = todo.pop()
         if aid in amap.setdefault(nm, set()):
@@ -379,15 +422,25 @@ def match_entries(r):
         if re_["kind"] != me["kind"] or len(re_["subs"]) != len(me["subs"]):
             diffs.append("entry %s: real kind=%d subs=%s, model %s kind=%d subs=%s" % (nm, re_["kind"], re_["subs"], aid, me["kind"], me["subs"]))
             continue
-        if re_["pr"] != me["pr"] or re_["cons"] != me["cons"]:
-            diffs.append("entry %s as root: real problems=%d consumes=%d, model %s problems=%d consumes=%d" % (nm, re_["pr"], re_["cons"], aid, me["pr"], me["cons"]))
+        pairs.append((nm, aid, re_, me))
         for sn, sid in zip(re_["subs"], me["subs"]):
             todo.append((sn, sid))
     missing = [nm for nm in r.aent if nm not in amap]
     if missing:
         diffs.append("real entries never reached by the model walk: %s" % missing[:3])
-    total = sum(r.ment[sorted(ids)[0]]["pr"] for nm, ids in amap.items() if sorted(ids)[0] in r.ment)
-    return diffs, total
+    shared = any(len(ids) > 1 for ids in amap.values())
+    stats["analysis_compared_" + ("zeroness_only(shared synthetic names)" if shared else "exactly")] += 1
+    for nm, aid, re_, me in pairs:
+        if shared:
+            if (re_["pr"] == 0) != (me["pr"] == 0) or (re_["pr"] == 0 and re_["cons"] != me["cons"]):
+                diffs.append("entry %s as root: real problems=%d consumes=%d, model %s problems=%d consumes=%d (zero-ness)" % (nm, re_["pr"], re_["cons"], aid, me["pr"], me["cons"]))
+        elif re_["pr"] != me["pr"] or re_["cons"] != me["cons"]:
+            diffs.append("entry %s as root: real problems=%d consumes=%d, model %s problems=%d consumes=%d" % (nm, re_["pr"], re_["cons"], aid, me["pr"], me["cons"]))
+    if not shared and not diffs:
+        total = sum(r.ment[next(iter(ids))]["pr"] for nm, ids in amap.items())
+        if total != r.atot:
+            diffs.append("model total over the real entry names %d, analyze<G>(-1)=%s" % (total, r.atot))
+    return diffs
 
 
 def short_cpp(g):
@@ -432,7 +485,10 @@ def no_traits(g):
 
 
 def run(ctx):
+    import time
+    t0 = time.time()
     ctx.proofs("Properties_C11")
+    t1 = time.time()
     model_exe = vlib.build_ocaml("ExtractC11", "c11_driver.ml", "c11_driver")
     common = prepare_common()
     maxlen = 4 if ctx.tier == "quick" else 5
@@ -455,10 +511,12 @@ def run(ctx):
     else:
         ctx.note("analyze<> now compiles for strict<>: the exclusion of strict/star_strict grammars (%d) should be revisited" % len(excluded))
 
+    ctx.note("phases: proofs %.0fs, build+run corpus %.0fs" % (t1 - t0, time.time() - t1))
     n_eval = 0
     n_runs = 0
     stats = {"grammars": 0, "certified": 0, "certified_all_terminate": 0, "flagged": 0, "flagged_and_loops": 0, "flagged_no_loop_found": 0,
-             "nocompile": 0, "errors": 0, "entries_compared": 0, "model_all_roots_zero_iff_real_zero": 0}
+             "nocompile": 0, "errors": 0, "entries_compared": 0, "model_all_roots_zero_iff_real_zero": 0,
+             "analysis_compared_exactly": 0, "analysis_compared_zeroness_only(shared synthetic names)": 0}
     viol = {}
     ndiff = 0
     samples = []
@@ -466,6 +524,10 @@ def run(ctx):
     for r in results:
         g = r.g
         if getattr(r, "nocompile", False):
+            if "cyclic_inline" in g.tags:
+                # X : if_apply< X, ... > / X : until< X >: the trait inherits from analyze_traits< X, X::rule_t > of the incomplete X
+                stats["expected_nocompile"] = stats.get("expected_nocompile", 0) + 1
+                continue
             stats["nocompile"] += 1
             if "illformed" in g.tags or ndiff < 5:
                 ctx.diff("grammar does not compile with analyze<> against the current tree", short_cpp(g), impl=r.error[:600], model=None)
@@ -478,13 +540,11 @@ def run(ctx):
             continue
         stats["grammars"] += 1
         # ---- correspondence 1: the analysis
-        ds, mtotal = match_entries(r)
+        ds = match_entries(r, stats)
         stats["entries_compared"] += len(r.aent)
         real_sum = sum(e["pr"] for e in r.aent.values())
         if r.atot != real_sum:
             ds.append("analyze<G>(-1)=%s but the per-root problems of the real entries add up to %d" % (r.atot, real_sum))
-        if mtotal is not None and not ds and mtotal != r.atot:
-            ds.append("model total over the real entry names %d, analyze<G>(-1)=%s" % (mtotal, r.atot))
         if (r.mtot == 0) != (r.atot == 0):
             ds.append("model problems(table)=%s (every table entry as root) vs analyze<G>(-1)=%s: zero-ness differs" % (r.mtot, r.atot))
         else:
